@@ -34,6 +34,10 @@ fn iter8_eq<'a, 'b>(a: Iter8<'a>, b: Iter8<'b>) -> (r: bool)
 fn opt_slice_eq(a: Option<&[u8]>, b: Option<&[u8]>) -> (r: bool)
     ensures r == ((a is None && b is None) || (a is Some && b is Some && a->0@ == b->0@))
 { a == b }
+pub assume_specification [ String::with_capacity ] (n: usize) -> (r: String)
+    ensures r@ == Seq::<char>::empty();
+pub assume_specification [ char::from_digit ] (num: u32, radix: u32) -> (r: Option<char>)
+    ensures radix == 16 && num < 16 ==> r == Some(hexc(num));
 pub assume_specification<T: ?Sized, A: core::alloc::Allocator>[ Rc::<T, A>::strong_count ](this: &Rc<T, A>) -> (r: usize);
 
 // R1: indexing through Rc<Cow<[u8]>> (Cow::deref has no spec in this vstd)
@@ -91,6 +95,7 @@ impl Bitstr {
 //@use bitstr.fns Bitstr::bits
 //@use bitstr.fns Bitstr::iter8
 //@use bitstr.fns Bitstr::data_mut
+//@use bitstr.fns Bitstr::to_hex_string
 //@use bitstr.fns Bitstr::to_bytes_with_padding
 //@use bitstr.fns Bitstr::to_bytes
 //@use bitstr.fns Bitstr::eq_with
